@@ -343,6 +343,25 @@ def sigma (pi : α) (ang : String → α) (r : Res α) (cm : List Chan) (ch : Op
     | (x0, _) :: _ =>
       pure ⟨"theta_inc" :: x0.dims, parts.flatMap fun p => p.1.cells.map fun c => (p.2 :: c.1, c.2)⟩
 
+/-- the selections at each angle of `ts`, converted to backscatter, stacked along a new leading `theta_inc` dimension:
+    `xr.concat([select_theta(data, t) for t in theta], pd.Index(theta, name="theta_inc"))` times `4π cos θ` **along that dimension** -/
+def sigmaOver (pi : α) (ang : String → α) (r : Res α) (kw' : Fix) (ts : List String) : Except Err (Res α) := do
+  let parts ← ts.mapM fun t => do
+    let x ← r.selectTheta t kw'
+    pure (x.mapVals (sigmaLin pi (ang t)), t)
+  match parts with
+  | [] => throw .shape
+  | (x0, _) :: _ =>
+    pure ⟨"theta_inc" :: x0.dims, parts.flatMap fun p => p.1.cells.map fun c => (p.2 :: c.1, c.2)⟩
+
+/-- `ActiveResult.sel_data(return_backscatter="natural", theta=[t₁, …], **kw)`: a *list* of incidence angles -/
+def sigmaList (pi : α) (ang : String → α) (r : Res α) (cm : List Chan) (ch : Option String) (kw : Fix) (ts : List String) :
+    Except Err (Res α) := do
+  let kw ← r.selArgs cm ch kw
+  let kw' := kw.filter fun p => p.1 != "theta" && p.1 != "theta_inc"
+  r.sigmaOver pi ang kw' ts
+
+
 /-- `sigma(channel, **kw)` and `sigma_dB(channel, **kw)` -/
 def sigmaOut (pi : α) (ang : String → α) (r : Res α) (cm : List Chan) (ch : Option String) (kw : Fix) :
     Except Err (Res α) := (sigma pi ang r cm ch kw).map squeeze
